@@ -353,6 +353,36 @@ class NDSet:
 _TRANSFORMED = [False]
 
 
+class NXSetOrder:
+    """networkx as seen by the transformed module: the functions that build a Python set from their node arguments and iterate it
+    (edge_boundary, node_boundary: see their source) get that iteration order from the engine as well; everything else is networkx"""
+
+    def __init__(self, real):
+        self._real = real
+
+    def __getattr__(self, name):
+        return getattr(self._real, name)
+
+    def edge_boundary(self, G, nbunch1, nbunch2=None, data=False, keys=False, default=None):
+        nset1 = NDSet([n for n in nbunch1 if n in G])
+        order = list(iter(nset1))
+        if G.is_multigraph():
+            edges = G.edges(order, data=data, keys=keys, default=default)
+        else:
+            edges = G.edges(order, data=data, default=default)
+        if nbunch2 is None:
+            return (e for e in edges if (e[0] in nset1) ^ (e[1] in nset1))
+        nset2 = NDSet(nbunch2)
+        return (e for e in edges if (e[0] in nset1 and e[1] in nset2) or (e[1] in nset1 and e[0] in nset2))
+
+    def node_boundary(self, G, nbunch1, nbunch2=None):
+        nset1 = NDSet([n for n in nbunch1 if n in G])
+        bdy = NDSet([w for v in nset1._l for w in G[v] if w not in nset1])
+        if nbunch2 is not None:
+            bdy = NDSet([w for w in bdy._l if w in NDSet(nbunch2)])
+        return bdy
+
+
 def load_transformed():
     """re-load EoN.simulation from its current source with set displays/comprehensions turned into set(...) calls
     and the name `set` bound to NDSet"""
@@ -375,6 +405,7 @@ def load_transformed():
     code = compile(tree, sim.__file__, 'exec')
     exec(code, sim.__dict__)
     sim.set = NDSet
+    sim.nx = NXSetOrder(sim.nx)
     for name in dir(sim):
         if not name.startswith('__') and hasattr(EoN, name) and callable(getattr(sim, name)):
             setattr(EoN, name, getattr(sim, name))
